@@ -39,6 +39,10 @@ vars == <<l, scen, myhost, hosts, sys, sels, snaps, ipint, ipsince, reg, inbox, 
 Ev == Rec[l]
 T  == Ev.t
 V(tag, cond, extra) == IF cond THEN {} ELSE {<<tag, l, scen, extra>>}
+
+(* at most 24 recorded failures per clause and kind: the set is part of the state, its size must stay bounded *)
+KindOfV(v) == IF v[4] # <<>> THEN v[4][1] ELSE ""
+Cap(old, new) == old \cup {v \in new : Cardinality({w \in old : w[1] = v[1] /\ KindOfV(w) = KindOfV(v)}) < 24}
 Dom(f) == DOMAIN f
 Put(f, k, v) == [x \in Dom(f) \cup {k} |-> IF x = k THEN v ELSE f[x]]
 Range(s) == {s[i] : i \in 1..Len(s)}
@@ -171,7 +175,7 @@ Iter ==
                                     [] o.kind = "removed" -> "instance whose PTR was learned on a vanished interface not reported removed"
                                     [] OTHER              -> "instance still reported with an address learned on a vanished interface", o>>) : o \in dueNow}
          O2 == {o \in owed : ~moot(o) /\ o.due > T /\ ~(o.kind = "removed" /\ okNow(o))}
-     IN /\ viol' = viol \cup vEgress \cup vWhere \cup vAddrs \cup vBrowse \cup vIgnored \cup vFamily \cup vOwed
+     IN /\ viol' = Cap(viol, vEgress \cup vWhere \cup vAddrs \cup vBrowse \cup vIgnored \cup vFamily \cup vOwed)
         /\ reg' = R /\ open' = [c \in Dom(s.open) \ stopped |-> s.open[c]] /\ down' = s.down
         /\ ptrOk' = ptrOk2 /\ ptrIf' = ptrIf2 /\ lastRes' = LR2 /\ owed' = (IF s.down THEN {} ELSE O2)
         /\ hits' = hits \cup (IF mcast # {} THEN {"C18.egress"} ELSE {})
